@@ -1890,6 +1890,14 @@ impl<T: Transport + 'static> SyncEngine<T> {
     /// file): a listed path was skipped even when the destination lacked it or held other
     /// contents.
     async fn destination_still_holds(&self, file: &scanner::FileEntry, dest_path: &Path) -> bool {
+        // A symbolic link in the place of a directory or a regular file (the source entry used to
+        // be a link) is not what the transfer left: the planner replaces it. Looked at through the
+        // link it passed for the directory, and the directory's entries were written through it.
+        if !file.is_symlink
+            && matches!(std::fs::symlink_metadata(dest_path), Ok(ref m) if m.file_type().is_symlink())
+        {
+            return false;
+        }
         if file.is_dir {
             return self
                 .transport
